@@ -338,11 +338,14 @@ class STensor:
                 return self
             raise OutOfReach("astype(int) of float tensor (truncation)")
         if t in (float, "float64", "float"):
-            return STensor(self.rshape, lambda *idx: to_f(self._elem(*idx)), "f")
+            e = self._elem  # a copy: later in-place writes into `self` must not show through
+            return STensor(self.rshape, lambda *idx: to_f(e(*idx)), "f")
         raise OutOfReach("astype %r" % (t,))
 
     def copy(self):
-        return self
+        if isinstance(self, MaskedAxisTensor):
+            return self
+        return STensor(self.rshape, self._elem, self.kind)
 
     def flatten(self):
         if self.ndim == 1:
